@@ -193,3 +193,10 @@ TEXT["C02"]["level"] += (" Variable-length chains (`ChainV`: transposes + vlen_v
     "and the same raw-value tie (`c02v`).")
 TEXT["C01"]["level"] += (" Likewise for variable-length arrays over the vlen codecs (`read_after_history_vlen`, with the byte-level update/merge/extract/fill-test functions proved equal "
     "to their element-level meaning).")
+TEXT["C20"]["level"] += (" At the level of single STORE OPERATIONS every method is modelled as the program of store calls it issues (Model/FaultOps.lean; the store counts its operations and fails "
+    "a given set of ordinals, exactly the harness's FaultStore): for every k up to the number of operations of the fault-free run, a fault at the k-th operation is an error (any method, "
+    "any start order of the per-chunk closures of a parallel method); single-chunk writes are atomic; a faulted read-modify-write leaves the chunk; multi-chunk writes leave every key "
+    "previous-or-intended; a retry converges, also for the two-key V2 metadata store; faulted reads change nothing; a failed fill of a chunk cache caches nothing; a V2 open is three "
+    "reads each of whose faults is an error (Props/C20Ops, 24 theorems + two seeded variants as counterexamples). The harness records each faulted call's trace of store operations; the "
+    "write operations must be those of the model's program.")
+TEXT["C08"]["level"] += (" The filesystem store's ranged read is proved EQUAL to the map's (`fs_getPartial_exact`) since the repair that validates every byte range; extreme offsets (2^63, 2^64-1) are generated.")
